@@ -7,6 +7,7 @@
  *                              V zck_validate_checksums   D zck_validate_data_checksum   F zck_find_valid_chunks
  *                              X zck_reset_failed_chunks   M zck_missing_chunks / zck_failed_chunks (counts only)
  *                              Q zck_find_matching_chunks(peer, this)  C<i> zck_get_chunk_data(chunk i)  S<i> ..comp_data(chunk i)
+ *   recover <0|1>            final read clears the error after every failed read and reads on
  *   peer <blob>              state: an intact file used as the source of Q
  *                            all on ONE context; afterwards the context is read to the end and closed ("-" = no scan)
  * output per case:
@@ -101,6 +102,7 @@ int cmd_scan(FILE *job, FILE *out) {
         if(n == 0) { free(t); free(line); continue; }
         if(!strcmp(t[0], "sched")) c.sched = parse_int_list(t[1], &c.nsched);
         else if(!strcmp(t[0], "peer")) c.peer = blob_arg(t[1]);
+        else if(!strcmp(t[0], "recover")) g_read_recover = atoi(t[1]);
         else if(!strcmp(t[0], "disk")) { disk = malloc(sizeof *disk); *disk = blob_arg(t[1]); }
         else if(!strcmp(t[0], "hist")) {
             if(!disk) die("scan: hist before disk");
